@@ -26,6 +26,14 @@ def matches(finding: dict, pid: str, case, clause: str, ctx: dict) -> bool:
         return False
 
 
+def _bounds(ax):
+    out, acc = {0}, 0
+    for v in ax:
+        acc += v
+        out.add(acc)
+    return out
+
+
 def _maxblock(grid):
     out = 1
     for ax in grid:
@@ -36,7 +44,7 @@ def _maxblock(grid):
 @matcher("bound_degree_exceeds_budget")
 def _f05(f, pid, case, clause, ctx):
     """C15: only steps inserted by _bound_degree (absent from the plan computed without a
-    degree bound) exceed the budget, by at most the recorded factor, under a small degree limit."""
+    degree bound, every axis a merge of the old or the new axis chunking) exceed the budget, under a small degree limit."""
     if not clause.endswith("step-exceeds-block-budget") or case.get("fn") != "plan_rechunk":
         return False
     if case["degree"] > f["params"]["max_degree_limit"]:
@@ -46,10 +54,13 @@ def _f05(f, pid, case, clause, ctx):
     if any(_maxblock(st) > budget for st in base):
         return False  # the size planner itself broke the budget: not this finding
     for st in case["out"]["plan"]:
-        mb = _maxblock(st)
-        if mb > budget:
-            if st in base or mb > f["params"]["max_ratio"] * budget:
+        if _maxblock(st) > budget:
+            # an inserted step: absent from the unbounded plan, every axis a merge of the old or new axis chunking
+            if st in base:
                 return False
+            for ax, o, n in zip(st, case["old"], case["new"]):
+                if not (_bounds(ax) <= _bounds(o) or _bounds(ax) <= _bounds(n)):
+                    return False
     return True
 
 
@@ -65,3 +76,77 @@ def _f03(f, pid, case, clause, ctx):
     for ax in case["out"]["chunks"]:
         prod *= max(ax)
     return prod <= f["params"]["tolerance"] * case["limit"]
+
+
+# ---------------------------------------------------------------------------- program replay (C01 ...)
+def _act(case):
+    return case.get("act") or {}
+
+
+def _xshape(case):
+    return case["operand_shapes"][str(_act(case)["x"])]
+
+
+def _shapes_in(detail):
+    import re
+
+    return [tuple(int(v) for v in m.replace(" ", "").split(",") if v) for m in re.findall(r"\(([\d, ]*)\)", detail)]
+
+
+@matcher("pad_width_exceeds_axis")
+def _f11(f, pid, case, clause, ctx):
+    """pad(mode='wrap') with a pad width larger than the axis: each side is filled with at most one
+    copy of the axis, so the padded axis is shorter than NumPy's."""
+    act = _act(case)
+    if act.get("a") != "Pad" or act.get("mode") not in f["params"]["modes"] or clause not in ("shape", "advertised-shape"):
+        return False
+    xs = _xshape(case)
+    ax = act["axis"] - 1
+    n = xs[ax]
+    if max(act["before"], act["after"]) <= n:
+        return False
+    shapes = _shapes_in(case["detail"])
+    if len(shapes) != 2:
+        return False
+    got, want = shapes
+    short = list(xs)
+    short[ax] = n + min(act["before"], n) + min(act["after"], n)
+    return list(got) == short and list(want) != short
+
+
+@matcher("repeat_empty_axis")
+def _f12(f, pid, case, clause, ctx):
+    act = _act(case)
+    return (act.get("a") == "Repeat" and act["reps"] >= 2 and _xshape(case)[act["axis"] - 1] == 0 and clause == "raised"
+            and "Need array(s) to concatenate" in case["detail"])
+
+
+@matcher("sliding_window_zero_length_axis")
+def _f13(f, pid, case, clause, ctx):
+    act = _act(case)
+    return (act.get("a") in ("SlidingWindow", "WindowReduce") and 0 in _xshape(case) and clause == "raised"
+            and "overlapping depth" in case["detail"] and "larger than your array 0." in case["detail"])
+
+
+@matcher("minmax_zero_size_kept_axis")
+def _f14(f, pid, case, clause, ctx):
+    act = _act(case)
+    if act.get("a") != "Reduce" or act.get("op") not in f["params"]["ops"] or clause != "raised":
+        return False
+    xs = _xshape(case)
+    if 0 not in xs or any(xs[a - 1] == 0 for a in act["axes"]):
+        return False
+    return "zero-size array to reduction operation" in case["detail"]
+
+
+@matcher("argflat_tie_block_order")
+def _f15(f, pid, case, clause, ctx):
+    act = _act(case)
+    return (act.get("a") == "ArgFlat" and len(_xshape(case)) >= 2
+            and clause == "values-other-occurrence-of-the-extreme-value")
+
+
+@matcher("blocks_alias_reports_transfer")
+def _f06(f, pid, case, clause, ctx):
+    """C27: Blocks (x.blocks[...], every task an Alias) inherits the generic estimate."""
+    return clause == "alias-moves-bytes" and " node Blocks: " in case.get("detail", "")
